@@ -457,7 +457,9 @@ struct Bfs {
       if (frontier.empty()) { st.completed_depth = depth; break; }
       const bool expand = depth < maxDepth;
       // workers: check_state on every frontier node; expand if depth < maxDepth
-      const std::string dir = scratch_dir();
+      // own directory for successor files (run_sharded creates and removes .../p<pid> itself)
+      const std::string dir = scratch_dir() + "-bfs" + std::to_string(depth);
+      mkdir(dir.c_str(), 0777);
       Options o2 = opt; o2.deadline_s = std::max(1.0, t_deadline - now_s());
       RunInfo ri;
       Report lvl = run_sharded(o2, label + "/depth" + std::to_string(depth), [&](Ctx& c) {
